@@ -11,7 +11,7 @@ LEVEL = 'fault_enumeration'
 RULE = ('case = (stream bytes incl. sentinel tail, Content-Length below/equal/above the bytes available, buffer = '
         'max_memfile_size, read-fragmentation pattern = caps for successive read() calls, entry point '
         '_body_read | Request.body through WSGI read twice, content type none / octet-stream / JSON / urlencoded / multipart with a well-formed body whose closing delimiter '
-        'is followed by an epilogue, max_body_size unset, >= Content-Length incl. equal, or below it (413 expected, the read audit still applies); wsgi.input = fragmenting stream or a real seekable stream that stands behind the bytes of an earlier request; declared lengths up to 2^31 with an early end of stream; the wsgi.input_terminated flag set or not). Hypothesis-generated plus exhaustive enumeration of all '
+        'is followed by an epilogue, max_body_size unset, >= Content-Length incl. equal, or below it (413 expected, the read audit still applies); wsgi.input = fragmenting stream, a real seekable stream that stands behind the bytes of an earlier request, or an unbuffered io.RawIOBase stream (readinto with short reads) that holds more than the declared length; between the two reads of request.body the handler may re-assign CONTENT_TYPE / a re-spelled CONTENT_LENGTH / a header / the query string through request[...]; declared lengths up to 2^31 with an early end of stream; the wsgi.input_terminated flag set or not). Hypothesis-generated plus exhaustive enumeration of all '
         'compositions (cap sequences) of every body length <= 9 for buffers 1..11. Oracle: body == first '
         'min(CL, available) stream bytes; no read(n) asks for more than CL minus bytes already delivered; no '
         'read(-1). Non-trivial = at least one short read happened, or CL != available, or the body spilled to a '
@@ -27,7 +27,7 @@ CTYPES = [None, None, 'application/octet-stream', 'multipart/form-data; boundary
 
 
 def _strategy():
-    def build(data, clmode, delta, buf, pattern, via, anycl, ctype, mp, epi, maxb, stream_kind, huge, term):
+    def build(data, clmode, delta, buf, pattern, via, anycl, ctype, mp, epi, maxb, stream_kind, huge, term, reassign, first_read):
         if mp and ctype and ctype.startswith('multipart/'):
             data = MP_BODY + epi + data[:delta % 7]          # a well-formed multipart body (closing delimiter + epilogue) followed by a few sentinel bytes
             if clmode == 'eq':
@@ -57,6 +57,9 @@ def _strategy():
                 case['via'] = 'wsgi'
         if stream_kind and case['via'] == 'wsgi':
             case['stream'] = stream_kind
+        if reassign and case['via'] == 'wsgi' and maxb is None:
+            case['reassign'] = reassign
+            case['first_read'] = first_read
         return case
     data = st.one_of(st.binary(max_size=40), st.binary(min_size=30, max_size=220))
     return st.builds(
@@ -69,8 +72,9 @@ def _strategy():
         st.integers(0, 400),
         st.sampled_from(CTYPES), st.booleans(), st.sampled_from([b'', b'\r\n', b'\r\nepilogue text', b'\r\n\r\nmore']),
         st.sampled_from([None, None, None, 0, 0, 1, 1000, -1, -7, -1000]),
-        st.sampled_from([None, None, None, 'bytesio_at_offset', 'bufferedreader_at_offset']),
-        st.sampled_from([None, None, None, 2**20, 2**20 + 1, 3 * 2**20, 2**31]), st.sampled_from([None, None, None, True, True, False]))
+        st.sampled_from([None, None, None, 'bytesio_at_offset', 'bufferedreader_at_offset', 'rawio', 'rawio']),
+        st.sampled_from([None, None, None, 2**20, 2**20 + 1, 3 * 2**20, 2**31]), st.sampled_from([None, None, None, True, True, False]),
+        st.sampled_from([None, None, None, 'ctype', 'cl_respelled', 'header', 'query']), st.sampled_from([None, 0, 1, 7, 1000]))
 
 
 def _read_direct(case, stream):
@@ -94,7 +98,17 @@ def _read_wsgi(case, stream):
     @app.route('/b', method='POST')
     def h():
         rq = app.request
-        b1 = rq.body.read()
+        f1 = rq.body
+        b1 = f1.read() if case.get('first_read') is None else f1.read(case['first_read']) + f1.read()
+        ra = case.get('reassign')
+        if ra == 'ctype':
+            rq['CONTENT_TYPE'] = 'application/x-verif; v=2'          # a handler correcting the declared media type after looking at the body
+        elif ra == 'cl_respelled':
+            rq['CONTENT_LENGTH'] = '0' + str(case['cl'])             # same length, other spelling
+        elif ra == 'header':
+            rq['HTTP_X_VERIF'] = 'changed'
+        elif ra == 'query':
+            rq['QUERY_STRING'] = 'changed=1'
         b2 = rq.body.read()          # "rewound on every access"
         seen['b1'], seen['b2'] = b1, b2
         seen['spilled'] = type(rq.body).__name__ != 'BytesIO'
@@ -118,6 +132,32 @@ def _read_wsgi(case, stream):
     if r.body != seen.get('b1'):
         raise CheckFailure('echoed body differs from what the handler read')
     return seen['b1'], seen['spilled']
+
+
+class RawStream(__import__('io').RawIOBase):
+    """An unbuffered io.RawIOBase stream (what socket.SocketIO / io.FileIO are): readinto() with short reads; the data continues beyond
+    the declared length (a pipelined next request). Records the reads like FragStream."""
+
+    def __init__(self, data, pattern):
+        super().__init__()
+        self.data, self.pattern = data, list(pattern or [])
+        self.pos = 0
+        self.i = 0
+        self.requests = []
+        self.neg_reads = 0
+
+    def readable(self):
+        return True
+
+    def readinto(self, b):
+        n = len(b)
+        cap = self.pattern[self.i % len(self.pattern)] if self.pattern else n
+        self.i += 1
+        out = self.data[self.pos:self.pos + min(n, cap)]
+        self.requests.append((n, self.pos, len(out)))
+        b[:len(out)] = out
+        self.pos += len(out)
+        return len(out)
 
 
 class OffsetStream:
@@ -158,7 +198,10 @@ class OffsetStream:
 
 def check_case(ctx, case):
     data, cl, buf = case['data'], case['cl'], case['buf']
-    stream = OffsetStream(data, case['stream']) if case.get('stream') else FragStream(data, case['pattern'])
+    if case.get('stream') == 'rawio':
+        stream = RawStream(data, case['pattern'])
+    else:
+        stream = OffsetStream(data, case['stream']) if case.get('stream') else FragStream(data, case['pattern'])
     try:
         got, spilled = (_read_wsgi if case['via'] == 'wsgi' else _read_direct)(case, stream)
     except CheckFailure:
@@ -202,8 +245,12 @@ def check_case(ctx, case):
         ctx.count('max_body_size_configured')
         if case['max_body'] == cl:
             ctx.count('content_length_equals_max_body_size')
-    if case.get('stream'):
+    if case.get('stream') == 'rawio':
+        ctx.count('raw_unbuffered_stream')
+    elif case.get('stream'):
         ctx.count('seekable_stream_positioned_after_earlier_bytes')
+    if case.get('reassign'):
+        ctx.count('request_key_reassigned_between_two_body_reads')
     if cl >= 2**20:
         ctx.count('declared_length_of_a_megabyte_or_more')
     if case.get('input_terminated'):
@@ -252,6 +299,19 @@ def run(ctx):
                             c['input_terminated'] = term
                         ctx.guarded(check_case, c)
         ctx.count('declared_length_grid')
+        # an unbuffered raw stream holding more than the declared length; a request key re-assigned between two reads of the body (in memory and spilled)
+        for n_ in (0, 1, 9, 100, 3072):
+            for extra in (1, 50, 9000):
+                for pattern in ([], [1], [7], [16, 3]):
+                    for buf in (8, 64, 102400):
+                        ctx.guarded(check_case, {'data': bytes(65 + i % 26 for i in range(n_ + extra)), 'cl': n_, 'buf': buf, 'pattern': pattern, 'via': 'wsgi', 'ctype': None, 'stream': 'rawio'})
+        for ra in ('ctype', 'cl_respelled', 'header', 'query'):
+            for first in (None, 0, 1, 7):
+                for buf in (8, 102400):
+                    for ct in (None, 'application/json', 'text/plain'):
+                        ctx.guarded(check_case, {'data': bytes(65 + i % 26 for i in range(40)) + b'##', 'cl': 40, 'buf': buf, 'pattern': [5], 'via': 'wsgi', 'ctype': ct,
+                                                 'reassign': ra, 'first_read': first})
+        ctx.count('raw_stream_and_reassign_grid')
     n = 5000 if ctx.tier == 'quick' else 40000
     ctx.hyp(_strategy(), check_case, n)
 
